@@ -137,6 +137,11 @@ pub fn run(rep: &mut Report, thorough: bool) {
     };
     let ack = cookies[&key_of(&f)].wrapping_add(1);
     let ss = streams(thorough);
+    // segmentation on a busy responder: 70 000 other connections between the segments of a request
+    {
+        let convs: Vec<(String, Vec<Vec<u8>>)> = crate::props::apps::busy_convs().into_iter().filter(|c| c.0.contains("segments") || c.0.contains("signature")).collect();
+        crate::props::apps::busy_stage(rep, &cfg, "C11", "busy-responder", &convs, 70_000);
+    }
     // pass 1: unsegmented and finest runs: reference reply and trigger byte
     let t0 = std::time::Instant::now();
     let refs: Mutex<BTreeMap<u64, (Option<Vec<u8>>, Option<usize>)>> = Mutex::new(BTreeMap::new());
